@@ -40,6 +40,7 @@ var rules = []rule{
 	{"app/router", map[string][2]string{
 		"net":                          {fac + "vnet", "net"},
 		"sync":                         {fac + "vsync", "sync"},
+		"os/signal":                    {fac + "vsignal", "signal"},
 		"golang.org/x/net/ipv6":        {fac + "vipv6", "ipv6"},
 		"github.com/panjf2000/gnet/v2": {fac + "vgnet", "gnet"},
 		"github.com/IrineSistiana/mosproxy/internal/udpcmsg": {fac + "vudpcmsg", "udpcmsg"},
@@ -68,6 +69,8 @@ const routerShim = `package router
 import (
 	"context"
 	"crypto/tls"
+
+	"github.com/spf13/cobra"
 )
 
 // Export shim added by simgen (exists only in the simulator build).
@@ -89,6 +92,10 @@ func (r *router) VFatal() (string, error, bool) {
 }
 
 func (r *router) VCtxDone() bool { return r.ctx.Err() != nil }
+
+// VNewRouterCmd is the router sub-command (reads and strictly decodes the
+// configuration file, then run()).
+func VNewRouterCmd() *cobra.Command { return newRouterCmd() }
 
 // VMakeTlsConfig exposes the TLS option handling used for listeners and upstreams.
 func VMakeTlsConfig(cfg *TlsConfig, requireCert bool) (*tls.Config, error) {
